@@ -49,7 +49,7 @@ CONF = {
     "C17": dict(level="exploration", workers=16, quick=dict(cases=8000, size=100), thorough=dict(cases=150000, size=150),
                 fuzz=[]),
     "C18Q": dict(level="exploration", workers=16, quick=dict(cases=1500, size=60), thorough=dict(cases=30000, size=100)),
-    "C18": dict(also=dict(quick=[("C18Q", 1500), ("C08", 500)], thorough=[("C18Q", 30000), ("C08", 20000)]), level="exploration", workers=16, quick=dict(cases=12000, size=100), thorough=dict(cases=300000, size=150),
+    "C18": dict(also=dict(quick=[("C18Q", 1500), ("C08", 500), ("C06", 800)], thorough=[("C18Q", 30000), ("C08", 20000), ("C06", 20000)]), level="exploration", workers=16, quick=dict(cases=12000, size=100), thorough=dict(cases=300000, size=150),
                 fuzz=[]),
     "C19": dict(level="exploration", workers=16, quick=dict(cases=10000, size=100), thorough=dict(cases=150000, size=100),
                 fuzz=[dict(name="fz_url", quick_runs=400000, thorough_runs=8000000, max_len=300, dict="fuzz/url.dict")]),
